@@ -56,7 +56,11 @@ def run(ctx):
         bw, tb = calcs[w]
         be = bitarray(list(bits), endian="big")
         le = bitarray(list(bits), endian="little")
-        obs.append({"w": w, "n": len(bits), "bits": pack(bits),
+        cval = ba2int(bw.calculate_checksum(be.copy()))
+        others = [cval ^ 1, cval ^ (1 << (w - 1)), cval + (1 << w), cval | (1 << (w + 5)), cval + (1 << 40)]
+        verify_same = bool(bw.verify_checksum(be.copy(), cval)) and bool(tb.verify_checksum(be.copy(), cval))
+        verify_other = any(bool(c.verify_checksum(be.copy(), x)) for c in (bw, tb) for x in others)
+        obs.append({"w": w, "n": len(bits), "bits": pack(bits), "verify_same": verify_same, "verify_other": verify_other,
                     "bitwise": pair(ba2int(bw.calculate_checksum(be.copy()))), "table": pair(ba2int(tb.calculate_checksum(be.copy()))),
                     "bitwise_le": pair(ba2int(bw.calculate_checksum(le.copy()))), "table_le": pair(ba2int(tb.calculate_checksum(le.copy())))})
         ctx.count(core.digest([w, len(bits), pack(bits)]))
